@@ -9,3 +9,7 @@ void verif_assert_hook(const char *filename, int line, const char *message) {
     throw verif::assertion_failure{filename ? filename : "", line, message ? message : ""};
 }
 }
+
+// static-initialisation probe (see st_static_init_probe.h); the engine asks for its verdict before the first case
+#include "st_static_init_probe.h"
+std::string verif_static_init_verdict() { return verif_probe::verdict(); }
